@@ -54,7 +54,12 @@ def run(name, ids, tier):
     assert sh('git status --porcelain', '/repo')[1].strip() == '', '/repo not clean'
     out = f'{V}/scratch/seedout'
     res = {}
-    assert sh(f'git apply {d}/patch.diff', '/repo')[0] == 0
+    if sh(f'git apply {d}/patch.diff', '/repo')[0] != 0:
+        print(f"{name}: PATCH DOES NOT APPLY to the current /repo (needs re-creating on this tree)")
+        meta['applies'] = False
+        json.dump(meta, open(f'{d}/meta.json', 'w'), indent=1)
+        return
+    meta['applies'] = True
     try:
         for cid in ids:
             rc, o = sh(f'{V}/check {cid} --tier {tier}', V, dict(os.environ, VERIF_OUT=out), 7200)
